@@ -10,7 +10,7 @@ import (
 
 func init() {
 	register("C11", propMeta{
-		Explanation: "E-CONST + E-PROV + ordering rule + E-GUARD. O-1 path codec agreement: EncodePath and DecodePath use base64.RawURLEncoding and the same format byte '0'; DecodePath decodes the substring after strings.LastIndexByte(rest, '/') so that nothing before the last slash influences the result. O-2 one handler behind both endpoints: ampClientOffers hands the DecodePath result as Arg.Body to the same (*IPC).ClientOffers that clientOffers calls and writes the returned response bytes, unmodified, to the armor encoder, which it closes on every path after creating it. O-3 fronting shape: in both Exchange methods, exactly on the front != \"\" edge, the store req.Host <- req.URL.Host precedes the store req.URL.Host <- front, and neither field is written anywhere else. O-4 status and size are errors, never truncated data: the body is read only through the false edge of StatusCode != 200 (compared for equality with the constant 200); limitedRead wraps the body in LimitedReader{N: limit+1} and returns a non-nil error when limit+1 bytes arrived; the HTTP Exchange returns limitedRead(body, 100000); the AMP Exchange wraps the body in io.LimitReader(_, readLimit+1) before decoding and returns a non-nil error on the N == 0 edge. O-5 cache URL constants: domainPrefix accepts the basic algorithm's result only on err == nil and len(result) <= 63 (measured on the result, not the input), else uses the SHA-256/base32 fallback (lower-case alphabet, no padding); CacheURL appends \"s\" exactly for https, and rejects other schemes, userinfo, non-default ports and a cache query or fragment by error returns. Added after the second seeding round: O-3 requires the Host header value to be the Host of this very request's URL (req.URL.Host), not of another URL the rendezvous knows; O-2b/C14 the IPC error-mapping obligation of C14 on ampClientOffers and clientOffers (an IPC error answers 5xx on both endpoints). Stores and the LimitReader are also found in same-package helpers, with operands mapped back along the call chain. Added after the third seeding round: O-1b the endpoint paths resolved against the broker URL are relative references, so the broker URL's own path is kept. Added after the fourth seeding round: O-2 what DecodePath receives is the request path minus exactly the routing prefix the endpoint is registered under (TrimPrefix or a HasPrefix-guarded slice, not TrimLeft); O-5b the five steps of the AMP basic algorithm on one value chain, the 0-...-0 wrap tied to hyphens at indexes 2 and 3; O-5c no store through a *url.URL parameter or a URL field of a rendezvous object. Added after the fifth seeding round: O-3 with a front configured no path reaches the round trip without the Host/URL rewriting; O-2c/C14 the POST handler treats a body as legacy exactly when it starts with '{' (C14's legacy-shim obligations). Added after the sixth seeding round and the mutation audit: O-2 what DecodePath receives derives from URL.Path, not from EscapedPath/RawPath/RequestURI.",
+		Explanation: "E-CONST + E-PROV + ordering rule + E-GUARD. O-1 path codec agreement: EncodePath and DecodePath use base64.RawURLEncoding and the same format byte '0'; DecodePath decodes the substring after strings.LastIndexByte(rest, '/') so that nothing before the last slash influences the result. O-2 one handler behind both endpoints: ampClientOffers hands the DecodePath result as Arg.Body to the same (*IPC).ClientOffers that clientOffers calls and writes the returned response bytes, unmodified, to the armor encoder, which it closes on every path after creating it. O-3 fronting shape: in both Exchange methods, exactly on the front != \"\" edge, the store req.Host <- req.URL.Host precedes the store req.URL.Host <- front, and neither field is written anywhere else. O-4 status and size are errors, never truncated data: the body is read only through the false edge of StatusCode != 200 (compared for equality with the constant 200); limitedRead wraps the body in LimitedReader{N: limit+1} and returns a non-nil error when limit+1 bytes arrived; the HTTP Exchange returns limitedRead(body, 100000); the AMP Exchange wraps the body in io.LimitReader(_, readLimit+1) before decoding and returns a non-nil error on the N == 0 edge. O-5 cache URL constants: domainPrefix accepts the basic algorithm's result only on err == nil and len(result) <= 63 (measured on the result, not the input), else uses the SHA-256/base32 fallback (lower-case alphabet, no padding); CacheURL appends \"s\" exactly for https, and rejects other schemes, userinfo, non-default ports and a cache query or fragment by error returns. Added after the second seeding round: O-3 requires the Host header value to be the Host of this very request's URL (req.URL.Host), not of another URL the rendezvous knows; O-2b/C14 the IPC error-mapping obligation of C14 on ampClientOffers and clientOffers (an IPC error answers 5xx on both endpoints). Stores and the LimitReader are also found in same-package helpers, with operands mapped back along the call chain. Added after the third seeding round: O-1b the endpoint paths resolved against the broker URL are relative references, so the broker URL's own path is kept. Added after the fourth seeding round: O-2 what DecodePath receives is the request path minus exactly the routing prefix the endpoint is registered under (TrimPrefix or a HasPrefix-guarded slice, not TrimLeft); O-5b the five steps of the AMP basic algorithm on one value chain, the 0-...-0 wrap tied to hyphens at indexes 2 and 3; O-5c no store through a *url.URL parameter or a URL field of a rendezvous object. Added after the fifth seeding round: O-3 with a front configured no path reaches the round trip without the Host/URL rewriting; O-2c/C14 the POST handler treats a body as legacy exactly when it starts with '{' (C14's legacy-shim obligations). Added after the sixth seeding round and the mutation audit: O-2 what DecodePath receives derives from URL.Path, not from EscapedPath/RawPath/RequestURI. O-6 the discarded-error rule on the rendezvous files.",
 		NotDecided:  "conformance of the basic algorithm with the AMP specification on IDN inputs, URL escaping details, byte equality of AMP and POST responses (value-level).",
 		Assumptions: []string{"net/http sends req.Host as the Host header and connects to req.URL.Host", "idna, base32, sha256 behave as documented"},
 	}, runC11)
@@ -267,7 +267,30 @@ func runC11(c *Ctx) {
 						}
 					}
 				}
-				c.check(closed, rule2, "ampClientOffers closes the armor encoder on every path after creating it", p.instrPos(enc), "deferred Close behind the err == nil edge", "the armored document can be left without its trailer")
+				if !closed {
+					// or closed explicitly: from the edge on which the encoder exists no return is reached
+					// without a Close call on it
+					isClose := func(in ssa.Instruction) bool {
+						ci, ok := in.(ssa.CallInstruction)
+						if !ok {
+							return false
+						}
+						n := calleeName(ci)
+						if n != "(io.Closer).Close" && n != "(io.WriteCloser).Close" {
+							return false
+						}
+						args := callArgs(ci)
+						return len(args) > 0 && isResultOfCall(args[0], enc, 0)
+					}
+					okE := errNilEdges(encFn, enc, 1)
+					closed = len(okE) > 0
+					for _, e := range okE {
+						if escapesWithout(e.To(), isClose) != nil {
+							closed = false
+						}
+					}
+				}
+				c.check(closed, rule2, "ampClientOffers closes the armor encoder on every path after creating it", p.instrPos(enc), "Close (deferred or on every path) behind the err == nil edge", "the armored document can be left without its trailer")
 			}
 		}
 	}
@@ -345,6 +368,15 @@ func runC11(c *Ctx) {
 		c.checkStatusAndLimit(fn, w.typ)
 	}
 	c.checkLimitedRead()
+	{
+		var rz []*ssa.Function
+		for _, fn := range p.FnsIn("client/lib") {
+			if pos := p.Pos(fn.Pos()); strings.Contains(pos, "rendezvous") {
+				rz = append(rz, fn)
+			}
+		}
+		c.checkDecodeErrorsConsumed("O-6 a decoding step's error is part of the verdict", rz)
+	}
 
 	// ---------- O-5 ----------
 	c.checkCacheURL()
